@@ -142,11 +142,11 @@ static void value_scenario()
   mc_eventf(obs);
 }
 
-MC_SCENARIO(buf_int_p1, 6, 8) { buffer_scenario<int, 1, 2>(); }
-MC_SCENARIO(buf_int_p2, 3, 5) { buffer_scenario<int, 2, 2>(); }
-MC_SCENARIO(buf_int_p3, 2, 3) { buffer_scenario<int, 3, 2>(); }
-MC_SCENARIO(buf_str_p2, 3, 4) { buffer_scenario<std::string, 2, 2>(); }
-MC_SCENARIO(buf_str_p1k3, 5, 7) { buffer_scenario<std::string, 1, 3>(); }
-MC_SCENARIO(val_int, 6, 8) { value_scenario<int, 2>(); }
-MC_SCENARIO(val_str, 6, 7) { value_scenario<std::string, 2>(); }
-MC_SCENARIO(val_int_n3, 5, 7) { value_scenario<int, 3>(); }
+MC_SCENARIO(buf_int_p1, 7, 10) { buffer_scenario<int, 1, 2>(); }
+MC_SCENARIO(buf_int_p2, 4, 6) { buffer_scenario<int, 2, 2>(); }
+MC_SCENARIO(buf_int_p3, 3, 4) { buffer_scenario<int, 3, 2>(); }
+MC_SCENARIO(buf_str_p2, 4, 5) { buffer_scenario<std::string, 2, 2>(); }
+MC_SCENARIO(buf_str_p1k3, 6, 8) { buffer_scenario<std::string, 1, 3>(); }
+MC_SCENARIO(val_int, 7, 10) { value_scenario<int, 2>(); }
+MC_SCENARIO(val_str, 7, 9) { value_scenario<std::string, 2>(); }
+MC_SCENARIO(val_int_n3, 6, 9) { value_scenario<int, 3>(); }
